@@ -96,7 +96,7 @@ func main() {
 	if *selftest {
 		bad := 0
 		for _, id := range ids {
-			for _, r := range runSensitivity(registry[id], *dir, *verif) {
+			for _, r := range append(runSensitivity(registry[id], *dir, *verif), runPatchSeeds(registry[id], *dir, *verif)...) {
 				fmt.Printf("%s seed %-40s %-11s %s\n", id, r.Name, r.Outcome, r.Detail)
 				if r.Outcome != "caught" && r.Outcome != "quiet" {
 					bad++
@@ -214,12 +214,17 @@ func runProperty(p *Property, tier, dir, verif string, known []KnownFinding, see
 	extra := map[string]any{}
 	if tier == "thorough" && loadFailed == "" {
 		sens := runSensitivity(p, dir, verif)
+		sens = append(sens, runPatchSeeds(p, dir, verif)...)
 		extra["sensitivity"] = sens
+		tally := map[string]int{}
 		for _, s := range sens {
-			if s.Outcome == "missed" {
-				fmt.Printf("CHECKER-SELFTEST property=%s seed %s was not reported (%s)\n", p.ID, s.Name, s.Detail)
+			tally[s.Outcome]++
+			if s.Outcome == "missed" || s.Outcome == "false-alarm" {
+				fmt.Printf("CHECKER-SELFTEST property=%s seed %q: %s (%s)\n", p.ID, s.Name, s.Outcome, s.Detail)
 			}
 		}
+		extra["sensitivity_tally"] = tally
+		fmt.Printf("%s checker self-test: %v\n", p.ID, tally)
 	}
 
 	if list {
